@@ -80,6 +80,11 @@ def real_dump(reader, schema=None, uidfield="u", with_stats=False, parts=None):
         order_errors = []
         where = "all_terms"
         terms = list(reader.all_terms()) if "terms" in parts else []
+        # the lexicon is an ordered, duplicate-free listing (cursors, range and prefix expansion rely on it)
+        for a_, b_ in zip(terms, terms[1:]):
+            if not a_ < b_:
+                out["lexicon_order_errors"] = [a_, b_]
+                break
         stats = {}
         for f, tb in terms:
             where = "postings(%s,%r)" % (f, tb)
